@@ -4,6 +4,7 @@ import GA.Drv.OwnE
 import GA.Drv.SeqE
 import GA.Drv.MemE
 import GA.Drv.HistE
+import GA.Drv.HexE
 open GA.Drv
 
 def answerLine (line : String) : String :=
@@ -19,6 +20,7 @@ def answerLine (line : String) : String :=
       | "chunks" => MemE.chunks kv
       | "regroup" => MemE.regroup kv
       | "hist" => HistE.answer kv
+      | "hex" => HexE.answer kv
       | _ => "bad-engine"
     s!"{seq} {body}"
   | _ => "bad-line"
